@@ -35,7 +35,8 @@ var c19Versions = []int64{0, 1, 2, 3, 255}
 var c19OIDs = []string{"1.2.3.4", refx509.OIDSHA256RSA, refx509.OIDSHA256ECDSA, "2.999.1", "1.2.840.010045.04.3.010"} // the last: arcs written with leading zeros are decimal numbers
 
 func c19Bytes() []*refcfg.Raw {
-	return []*refcfg.Raw{refcfg.Empty(), refcfg.Null(), refcfg.Bin([]byte{1, 2, 3, 4}), refcfg.Bin(bytes.Repeat([]byte{0x42, 0x99}, 50))}
+	// the last: a value whose base64 text begins with letters of the word "binary" (barn...)
+	return []*refcfg.Raw{refcfg.Empty(), refcfg.Null(), refcfg.Bin([]byte{1, 2, 3, 4}), refcfg.Bin(bytes.Repeat([]byte{0x42, 0x99}, 50)), refcfg.Bin([]byte{0x6d, 0xaa, 0xe7, 1, 2, 3})}
 }
 
 // c19Edited: the manipulation values are edited after a first run; the next default run must issue the
@@ -58,7 +59,7 @@ func c19Edited(x *engine.Ctx, c *c19Case) {
 		return
 	}
 	c2 := *c
-	dims := []int{len(c19Versions), len(c19OIDs), 4, len(c19OIDs), len(c19OIDs), 4}
+	dims := []int{len(c19Versions), len(c19OIDs), len(c19Bytes()), len(c19OIDs), len(c19OIDs), len(c19Bytes())}
 	idx := []*int{&c2.Version, &c2.Outer, &c2.SigVal, &c2.TbsSig, &c2.PkAlg, &c2.PkBits}
 	what := ""
 	switch {
@@ -111,7 +112,7 @@ func c19Enumerate(tier string, yield func(any)) {
 			}
 		}
 	}
-	dims := []int{len(c19Versions), len(c19OIDs), 4, len(c19OIDs), len(c19OIDs), 4}
+	dims := []int{len(c19Versions), len(c19OIDs), len(c19Bytes()), len(c19OIDs), len(c19OIDs), len(c19Bytes())}
 	emit := func(v []int) {
 		for _, sub := range []bool{false, true} {
 			for es := 0; es < 3; es++ {
@@ -395,7 +396,7 @@ func init() {
 	register(&engine.Check{
 		ID:          "C19",
 		Level:       "exploration",
-		Rule:        "all 64 subsets of the six manipulation keys (one value each), every single key with every value (version {0,1,2,3,255}; OIDs {1.2.3.4, sha256WithRSA, ecdsa-with-SHA256, 2.999.1, an OID whose arcs are written with leading zeros}; byte fields {!empty,!null,4 B,100 B}), value products for pairs (quick, half) / for all subsets of size <=4 (thorough), each x {root, subordinate, subordinate whose key material is a certificate request} x extension set {none, SKI+AKI hash, all kinds}; with the SKI+AKI set the manipulated entity also issues a certificate with hashed key ids, compared with the reference as well. Plus 28 histories in which a value of the block is edited (or the key bits entry / the whole block removed) after a first run and a default run follows: the certificate and the one it issues carry the values now in the file. Existing RSA keys, configured serial and absolute dates make the certificate deterministic: it is compared (1) field by field with the reference translation, (2) differentially with the same configuration without the block (every other TBS field byte-identical; outer-only manipulations leave TBS and RSA signature identical), (3) signature verified over the actual TBS bytes with the real issuer key. non-trivial = distinct case",
+		Rule:        "all 64 subsets of the six manipulation keys (one value each), every single key with every value (version {0,1,2,3,255}; OIDs {1.2.3.4, sha256WithRSA, ecdsa-with-SHA256, 2.999.1, an OID whose arcs are written with leading zeros}; byte fields {!empty,!null,4 B,100 B, 6 B whose base64 text begins with letters of the prefix}), value products for pairs (quick, half) / for all subsets of size <=4 (thorough), each x {root, subordinate, subordinate whose key material is a certificate request} x extension set {none, SKI+AKI hash, all kinds}; with the SKI+AKI set the manipulated entity also issues a certificate with hashed key ids, compared with the reference as well. Plus 28 histories in which a value of the block is edited (or the key bits entry / the whole block removed) after a first run and a default run follows: the certificate and the one it issues carry the values now in the file. Existing RSA keys, configured serial and absolute dates make the certificate deterministic: it is compared (1) field by field with the reference translation, (2) differentially with the same configuration without the block (every other TBS field byte-identical; outer-only manipulations leave TBS and RSA signature identical), (3) signature verified over the actual TBS bytes with the real issuer key. non-trivial = distinct case",
 		Bound:       map[string]string{"subset size with full value product": "quick 2 (half), thorough 4"},
 		Assumptions: []string{"RSA PKCS#1 v1.5 signing is deterministic"},
 		Budget:      budgets(quickBudget, thoroughBudget),
